@@ -150,6 +150,23 @@ def main(run):
                 if not okv:
                     run.violation("per-key-value", f"{tag}: key {k!r} reports {g!r}, reference {e!r}", replay)
                     ok_hist = False
+            if not dyn and hasattr(mt, "tracked_value") and t % 3 == 2 and typ != "np32":      # (squares of float32 inputs overflow float32: not judged)
+                # "one independent copy of the base tracker per key": the per-key trackers (public attribute tracked_value) carry
+                # the FULL base statistic - for Welford also the population variance of the key's zero-filled history
+                for k in seen_keys:
+                    vs = [tofrac(v_) for v_ in ref.keys[k].vals]
+                    mu = sum(vs) / len(vs)
+                    pv = sum((v_ - mu) ** 2 for v_ in vs) / len(vs)
+                    try:
+                        gv = mt.tracked_value[k].var
+                    except Exception:
+                        break
+                    run.ok(kind="per-key-variance")
+                    okv = (tofrac(gv) == pv) if exactmode else abs(float(gv) - float(pv)) <= 256 * (t + 2) * eps * ((256 if typ == "np_u8" else 21 if mode != "spike" else 3e9) * sc) ** 2
+                    if not okv:
+                        run.violation("per-key-value", f"{tag}: the tracker of key {k!r} reports variance {gv!r}, its history gives {pv!r}", replay)
+                        ok_hist = False
+                        break
             if mt.N != t + 1:
                 run.violation("update-count", f"{tag}: N={mt.N}", replay)
                 ok_hist = False
